@@ -147,7 +147,7 @@ func specPlain4(p *packets.FrameParser) bool {
 //@ requires[pre.past]     forall(k, 0, len(t.sentProbes), t.sentProbes[k].sendTime <= now() && t.sentProbes[k].sendTime != 0)
 //@ ensures[C06.append]    ret0 == nil ==> len(t.sentProbes) == old(len(t.sentProbes))+1 && specLast(t).ttl == ttl && specLast(t).sendTime != 0
 // the probe is registered (matchable by the receiver) before it is on the wire: a reply can never overtake its own bookkeeping
-//@ before Sink.WriteTo assert[C02+C05.send.registered] len(t.sentProbes) == old(len(t.sentProbes))+1 && specLast(t).ttl == ttl && specLast(t).sendTime != 0
+//@ before Sink.WriteTo assert[C02+C05+C06.send.registered] len(t.sentProbes) == old(len(t.sentProbes))+1 && specLast(t).ttl == ttl && specLast(t).sendTime != 0
 //@ ensures[C06.others]    ret0 == nil ==> forall(k, 0, old(len(t.sentProbes)), t.sentProbes[k] == old(t.sentProbes[k]))
 //@ ensures[C05.stamp]     ret0 == nil ==> wrN == old(wrN)+1 && specLast(t).sendTime <= wrClock && specLast(t).sendTime >= old(now())
 //@ ensures[C05.past]      forall(k, 0, len(t.sentProbes), t.sentProbes[k].sendTime <= now() && t.sentProbes[k].sendTime != 0)
